@@ -19,13 +19,13 @@ def first_word(r):
 
 def hflag(lex, lemma, pos, arg):
     """the answer of the lexicon to the aspirated-h question of isElidableFr(arg, lemma, pos), for an h-initial arg:
-    "m" elide (mute / unknown), "a" aspirated (`"h": 1`), "c" AttributeError (lemma not a str and word unknown),
-    "x" outside the model (a lexicon entry whose first value is not a dict)"""
-    info = lex.get(lemma if isinstance(lemma, str) else arg)
+    "m" elide (mute / unknown), "a" aspirated (`"h": 1`), "x" outside the model (a lexicon entry whose first value is
+    not a dict).  Since /repo commit fa11862 the lower-case fallback also uses the realization when the lemma is not a
+    str (a number, a date), so the former "c" answer (AttributeError on `lemma.lower()`) is never produced."""
+    key = lemma if isinstance(lemma, str) else arg
+    info = lex.get(key)
     if info is None:
-        if not isinstance(lemma, str):
-            return "c"
-        info = lex.get(lemma.lower())
+        info = lex.get(key.lower())
         if info is None:
             return "m"
     if pos not in info:
